@@ -77,6 +77,9 @@ type Parser struct {
 	// beforePrevToken holds the token that came before prevToken.
 	beforePrevToken token.Token
 
+	// depth is the current nesting depth of parseNode calls.
+	depth int
+
 	// curToken holds the current token from the lexer.
 	curToken token.Token
 
@@ -480,8 +483,19 @@ func (p *Parser) parseExpressionStatement() ast.Node {
 	return expr
 }
 
+// maxNestingDepth bounds the nesting of expressions and blocks. The parser is
+// recursive: without a bound, a source text of a megabyte of "(" exhausts the
+// Go stack, which no recover can catch.
+const maxNestingDepth = 100000
+
 func (p *Parser) parseNode(precedence int) ast.Node {
 	if p.curToken.Type == token.EOF || p.err != nil {
+		return nil
+	}
+	p.depth++
+	defer func() { p.depth-- }()
+	if p.depth > maxNestingDepth {
+		p.setTokenError(p.curToken, "invalid syntax (nested too deeply)")
 		return nil
 	}
 	postfix := p.postfixParseFns[p.curToken.Type]
@@ -541,6 +555,11 @@ func (p *Parser) illegalToken() ast.Node {
 }
 
 func (p *Parser) setTokenError(t token.Token, msg string, args ...interface{}) ast.Node {
+	if p.err != nil {
+		// Only the first error is kept: do not render another one (looking up
+		// the source line is linear in its length)
+		return nil
+	}
 	p.setError(NewParserError(ErrorOpts{
 		ErrType:       "parse error",
 		Message:       fmt.Sprintf(msg, args...),
